@@ -4,6 +4,7 @@
 From Coq Require Import List NArith ZArith Bool Arith String.
 Import ListNotations.
 Require Import Scan Pos.
+Require ScanTok ScanMonoGen.
 Require ParseL PT ParserSafe ParserMarks ParserGrammar.
 
 (* KIND C09_position_invariant : U *)
@@ -94,6 +95,20 @@ Example C09_grammar_nonvacuous :
   (exists c e p, snd (ParseL.parse_all [tk TStreamStart; tk TFlowSeqStart; tk sc; tk sc; tk TStreamEnd]) = ScanErr c e p).
 Proof. vm_compute. repeat split; eauto. Qed.
 
-(* PARTIAL: token_marks_monotone (scanner), block_balanced and span_is_value are
+(* KIND C09_delivered_tokens_start_before_they_end : U *)
+(* the scanner, EVERY text, however the scan ends (tokens, ScannerError, ...): every token delivered has a start mark whose index is at most the index of
+   its end mark.  Proofs/ScanTok.v: the position never moves backwards (ScanMonoGen.v, one generated lemma per function of the scanner model), the end
+   mark of each of the six token scanners is taken at or after the position where it was entered - also through the loops of plain and block scalars
+   that hand marks back - and the queue of tokens only ever receives such tokens (ScanTokGen.v, generated) *)
+Theorem C09_delivered_tokens_start_before_they_end : forall text,
+  Forall (fun t => m_index (t_start t) <= m_index (t_end t)) (fst (Scan.scan_all text)).
+Proof. exact ScanTok.delivered_tokens_start_before_they_end. Qed.
+Eval vm_compute in "ASSUME:C09_delivered_tokens_start_before_they_end"%string. Print Assumptions C09_delivered_tokens_start_before_they_end.
+(* KIND C09_position_never_moves_backwards : U *)
+Theorem C09_position_never_moves_backwards : forall s s', Scan.fetch_more_tokens s = Scan.Ok (tt, s') -> Scan.index s <= Scan.index s'.
+Proof. intros s s' H. exact (ScanMonoGen.mo_fetch_more_tokens s tt s' H). Qed.
+Eval vm_compute in "ASSUME:C09_position_never_moves_backwards"%string. Print Assumptions C09_position_never_moves_backwards.
+
+(* PARTIAL: the order BETWEEN successive tokens (token_marks_monotone across tokens), block_balanced and span_is_value are
    not proved; they are decided by the scan/parse correspondence (every mark compared) and by the direct run that
    recomputes every mark from the text and recognises both grammars (see tools/props/c09.py). *)
